@@ -31,7 +31,7 @@ fn wrap(w: u64, t: &str) -> String {
 
 fn is_enum(kinds: &str, i: usize) -> bool {
     match kinds {
-        "enum" => true,
+        "enum" | "enumu" => true,
         "alt" => i % 2 == 0,
         _ => false,
     }
@@ -64,7 +64,9 @@ pub fn render_contain(case: &Value) -> String {
             if fields.is_empty() {
                 out.push_str(&format!("enum T{i} {{ X }}\n"));
             } else {
-                out.push_str(&format!("enum T{i} {{ X, Y(n: int32), Z({}) }}\n", fields.join(", ")));
+                // ("enumu": with an underlying type - fields are illegal there, but what contains itself contains itself)
+                let under = if kinds == "enumu" { " : uint8" } else { "" };
+                out.push_str(&format!("enum T{i}{under} {{ X, Y(n: int32), Z({}) }}\n", fields.join(", ")));
             }
         } else {
             let c = if compact && !fields.is_empty() { "compact " } else { "" };
